@@ -137,6 +137,9 @@ REQS = [
     ("dyn_get", "std.get(L.counted, 'abs' + 'ent', 7)"),
     ("dyn_insuper", "(L.counted + {q: ('abs' + 'ent') in super}).q"),
     ("dyn_superidx", "(L.counted + {q: super['abs' + 'ent']}).q"),
+    ("dyn_superidx_nosuper", "local o = L.counted; {q: super['abs' + 'ent']}.q"),
+    ("dyn_insuper_nosuper", "local o = L.counted; {q: ('abs' + 'ent') in super}.q"),
+    ("dyn_superdot_nosuper", "local o = L.counted; {q: super.absent}.q"),
     ("dyn_field_def", "(L.counted + {['abs' + 'ent']: 5}).absent"),
     ("dyn_mergepatch", "std.mergePatch(L.counted, {['abs' + 'ent']: null})"),
     ("lit_absent", "local o = L.counted; {absent: 1}.absent"),
